@@ -29,6 +29,8 @@
      "create-stale-attr" create(O_TRUNC) replies with the attributes read before the truncation    (a15b2a9)
      "seeded:nofollow"   NOT a finding: O_NOFOLLOW lost in the lookup (seeded defect, anti-vacuity of C06)
      "seeded:destroy-unseals"  NOT a finding: destroy() resets the sealing switch and init() does not set it again
+     "seeded:root-keeps-group"  NOT a finding: set_creds does not switch the group for a caller with uid 0
+     "seeded:wb-append"  NOT a finding: the sealed refusal of O_APPEND writes is skipped under writeback
      "seeded:batch-root" NOT a finding: BATCH_FORGET naming the root removes the root from the inode table
 
    DESTROY + INIT on the same object (PtRemount): handles and inodes are dropped, the root is imported again, the
@@ -183,12 +185,14 @@ PtRemount ==
   /\ hist' = Append(hist, q @@ [st |-> "OK"]) /\ nops' = nops + 1
   /\ UNCHANGED <<nexti, nexth, size0, taint>>
 \* mkdir / symlink: validate, then (inside the credentials scope) fetch the directory file and call the host
-PtMk(ps, nm, kind, uid, tgt) ==
-  LET q == IF kind = "mkdir" THEN [op |-> "mkdir", p |-> ps, name |-> nm.s, nk |-> nm.k, mode |-> 493, umask |-> 0, emode |-> 493, uid |-> uid, gid |-> uid]
-           ELSE IF kind = "mknod" THEN [op |-> "mknod", p |-> ps, name |-> nm.s, nk |-> nm.k, type |-> "reg", mode |-> 33188, rdev |-> 0, umask |-> 0, emode |-> 420, uid |-> uid, gid |-> uid]
-           ELSE [op |-> "symlink", p |-> ps, name |-> nm.s, nk |-> nm.k, target |-> tgt, tsize |-> Len(tgt), uid |-> uid, gid |-> uid]
+PtMk(ps, nm, kind, cl, tgt) ==
+  LET uid == cl[1]  gid == cl[2]
+      q == IF kind = "mkdir" THEN [op |-> "mkdir", p |-> ps, name |-> nm.s, nk |-> nm.k, mode |-> 493, umask |-> 0, emode |-> 493, uid |-> uid, gid |-> gid]
+           ELSE IF kind = "mknod" THEN [op |-> "mknod", p |-> ps, name |-> nm.s, nk |-> nm.k, type |-> "reg", mode |-> 33188, rdev |-> 0, umask |-> 0, emode |-> 420, uid |-> uid, gid |-> gid]
+           ELSE [op |-> "symlink", p |-> ps, name |-> nm.s, nk |-> nm.k, target |-> tgt, tsize |-> Len(tgt), uid |-> uid, gid |-> gid]
       pino == SlotIno(ps)
-      c == [uid |-> uid, gid |-> uid, groups |-> {}] IN
+      \* set_creds: the group is switched for every non-zero gid, the user for every non-zero uid, independently
+      c == IF "seeded:root-keeps-group" \in AsFound /\ uid = 0 THEN Root0 ELSE [uid |-> uid, gid |-> gid, groups |-> {}] IN
   IF pino = 0 THEN Keep(q, Res("NOSLOT", NoRet))
   ELSE IF nm.k \in {"slash", "dot", "dotdot"} THEN Keep(q, Res("EINVAL", NoRet))          \* validate_path_component
   ELSE IF pino \notin DOMAIN itab THEN Keep(q, Res("EBADF", NoRet))
@@ -203,10 +207,11 @@ PtMk(ps, nm, kind, uid, tgt) ==
        ELSE LET l == DoLookup(r.S, itab, nexti, pino, nm.s, nm.k, NSlot) IN
             IF ~l.ok THEN Fin(q, Res(l.st, NoRet), r.S, itab, htab, nexti, nexth, TRUE, FALSE, 0, 0)
             ELSE Fin(q, Res("OK", Attr(l.T, l.id)), l.T, l.itab, htab, l.nexti, nexth, TRUE, FALSE, l.ino, 0)
-PtCreate(ps, nm, fl, uid) ==
-  LET q == [op |-> "create", p |-> ps, name |-> nm.s, nk |-> nm.k, fl |-> FlSeq(fl), flags |-> FlNum(fl), mode |-> 33188, umask |-> 0, emode |-> 420, uid |-> uid, gid |-> uid]
+PtCreate(ps, nm, fl, cl) ==
+  LET uid == cl[1]  gid == cl[2]
+      q == [op |-> "create", p |-> ps, name |-> nm.s, nk |-> nm.k, fl |-> FlSeq(fl), flags |-> FlNum(fl), mode |-> 33188, umask |-> 0, emode |-> 420, uid |-> uid, gid |-> gid]
       pino == SlotIno(ps)
-      c == [uid |-> uid, gid |-> uid, groups |-> {}]
+      c == IF "seeded:root-keeps-group" \in AsFound /\ uid = 0 THEN Root0 ELSE [uid |-> uid, gid |-> gid, groups |-> {}]
       wantH == ~Cfg.no_open IN
   IF pino = 0 THEN Keep(q, Res("NOSLOT", NoRet))
   ELSE IF nm.k \in {"slash", "dot", "dotdot"} THEN Keep(q, Res("EINVAL", NoRet))
@@ -302,7 +307,7 @@ PtRead(ns, hs, off, len, reqfl) ==
 PtWrite(ns, hs, off, data, reqfl) ==
   LET q == [op |-> "write", n |-> ns, h |-> hs, off |-> off, len |-> Len(data), data |-> data, fl |-> FlSeq(reqfl), flags |-> FlNum(reqfl), uid |-> 0, gid |-> 0] IN
   IF SlotIno(ns) = 0 \/ (hs >= 0 /\ SlotH(hs) = 0) THEN Keep(q, Res("NOSLOT", NoRet))
-  ELSE IF sw.seal /\ "APPEND" \in reqfl /\ "seal-holes" \notin AsFound THEN Keep(q, Res("EPERM", NoRet))   \* sealed: an O_APPEND write always grows the file
+  ELSE IF sw.seal /\ "APPEND" \in reqfl /\ "seal-holes" \notin AsFound /\ ~("seeded:wb-append" \in AsFound /\ Cfg.wb) THEN Keep(q, Res("EPERM", NoRet))   \* sealed: an O_APPEND write always grows the file
   ELSE LET g == GetData(ns, hs, {"RDWR"}, reqfl) IN
        IF ~g.ok THEN Keep(q, Res(g.st, NoRet))
        ELSE IF g.key \notin DOMAIN g.T.of THEN Keep(q, Res("EBADF", NoRet))      \* (as found only) descriptor closed behind the handle's back
@@ -344,7 +349,7 @@ AllNames == {[s |-> n, k |-> "plain"] : n \in PlainNames} \cup HostileNames
 Plain == {[s |-> n, k |-> "plain"] : n \in PlainNames}
 RSlots == 0..(Len(slots) - 1)
 HSlots == IF Cfg.no_open THEN {-1} ELSE 0..(Len(hslots) - 1)
-Uids == IF Mode = "c05" THEN {0, 1000} ELSE {0}
+Uids == IF Mode = "c05" THEN {<<0, 0>>, <<1000, 1000>>, <<0, 1000>>} ELSE {<<0, 0>>}       \* callers <<uid, gid>>
 OFlags == IF Mode = "c18fd" THEN {{"RDWR"}} ELSE IF Mode = "c18" THEN {{}, {"RDWR"}, {"RDWR", "APPEND"}, {"RDWR", "TRUNC"}, {"WR"}}
           ELSE IF Mode = "c05" THEN {{}, {"RDWR"}, {"RDWR", "APPEND"}, {"WR", "TRUNC"}} ELSE {{}, {"RDWR"}}
 WFlags == IF Mode = "c18fd" THEN {{"RDWR"}} ELSE IF Mode = "c18" THEN {{"RDWR"}, {"RDWR", "APPEND"}} ELSE IF Mode = "c05" THEN {{"RDWR"}, {"RDWR", "APPEND"}} ELSE {{"RDWR"}}
